@@ -37,7 +37,7 @@ ACCEPTED = {
 }
 
 
-def classes_of_slice(ctx, body, sl):
+def classes_of_slice(ctx, body, sl, _depth=0):
     O = ctx.O
     cl = set()
     for c in sl["calls"]:
@@ -63,6 +63,25 @@ def classes_of_slice(ctx, body, sl):
                         cl.add("TOTAL")
                     elif "vecdb::base::shared_len::SharedLen::get" in rr:
                         cl.add("LOGICAL")
+        elif _depth < 2 and (c.startswith("vecdb::") or c.startswith("<vecdb")) and not c.endswith("::len"):
+            # a workspace accessor that is not in the tables (a private trait method wrapping stored_len(), ...): the
+            # class of what it returns
+            P = ctx.P
+            tgs = [c] if c in P.bodies else list(P.cha(c))
+            for g in tgs[:6]:
+                G = P.bodies.get(g)
+                if G is None or len(G.blocks) > 60 or not re.fullmatch(r"u(size|64|32)", G.locals[0]["ty"]):
+                    continue
+                for b_ in G.reachable():
+                    for st_ in G.blocks[b_]["stmts"]:
+                        if st_[0] == "assign" and st_[1]["l"] == 0 and not st_[1]["p"]:
+                            for o_ in st_[2].get("ops", []):
+                                if op_place(o_) is not None:
+                                    cl |= classes_of_slice(ctx, G, O.slice_back(G, o_), _depth + 1) - {"PARAM"}
+                    t_ = G.blocks[b_]["term"]
+                    if t_["k"] == "call" and not t_["dest"]["p"] and t_["dest"]["l"] == 0:
+                        cl |= classes_of_slice(ctx, G, {"calls": set(names(t_)), "fields": set(), "params": set()},
+                                               _depth + 1)
     for f in sl["fields"]:
         if f in ("stored_len",):
             cl.add("LOGICAL")
@@ -212,14 +231,20 @@ def run(ctx, chk):
     n_sites = 0
     by_kind = {}
     param_ctor = set()
-    for bid, body in sorted(P.bodies.items()):
-        if body.krate != "vecdb" or NOT_FILE_BYTES.search(bid):
+    for bid, body0 in sorted(P.bodies.items()):
+        if body0.krate != "vecdb" or NOT_FILE_BYTES.search(bid):
             continue
         if BY_CONTRACT.search(bid):
             continue   # unchecked by contract: their call sites are the sites
+        has_site = any(any(READ_SITE.search(n) for n in names(t)) for _, t in body0.calls())
+        if not has_site and not O.inlined_into(bid):
+            continue
+        if O.covered_by_callers(bid):
+            continue   # a private helper / closure of a std combinator: judged inside the functions that use it
+        body = O.body(bid)
         for b, t in body.calls():
             nm = names(t)
-            hit = [n for n in nm if READ_SITE.search(n)]
+            hit = [n for n in nm if READ_SITE.search(n)] if not t.get("inlined") else []
             if not hit:
                 continue
             kind = hit[0].split("::")[-1]
@@ -349,8 +374,10 @@ def run(ctx, chk):
     for bid, root, b in callers:
         B = P.bodies[bid]
         t = B.blocks[b]["term"]
-        sl = O.slice_back(B, t["args"][2])
-        cl = classes_of_slice(ctx, B, sl)
+        cl = set()
+        for a_ in t["args"][1:]:       # (stamp, stored_len, pushed) or a struct that carries them
+            if op_place(a_) is not None:
+                cl |= classes_of_slice(ctx, B, O.slice_back(B, a_))
         kind = "raw" if "raw" in bid else "compressed"
         chk.oblige("E2r %s rollback clamps the restored length by the physical length (real_stored_len in its slice)" % kind,
                    "PHYS" in cl, detail={"classes": sorted(cl)}, key="E2r|%s|apply_rollback-unclamped" % kind,
